@@ -7,6 +7,7 @@
    primitives and their encodings are outside the model (SRP arithmetic: C02). *)
 From Coq Require Import List NArith Arith Bool Lia.
 From AHK Require Import Lib.Res Lib.ByteStr Model.Tlv Model.Sym Model.Setup Proofs.SymFacts Proofs.SetupFacts.
+From AHK Require Import Model.SetupFrames Proofs.SetupFramesFacts.
 Import ListNotations.
 
 (* SOUNDNESS.  For every transport, setup code, controller identifier, SRP and
@@ -148,3 +149,85 @@ Print Assumptions ps_m6_components_pinned.
 Print Assumptions ps_tampered_fails.
 Print Assumptions ps_complete.
 Print Assumptions ps_salt16_normal.
+
+(* ==== BLE: replies that arrive as several GATT frames (Model/SetupFrames.v: model of
+   controller/ble/client.py::_pairing_char_write, the reassembly loop under
+   drive_pairing_state_machine).  "Any message that is altered ... makes pairing fail"
+   is stated for the reply AS SENT: every item of every frame that was read counts. ==== *)
+
+(* no sibling is lost: an item (other than the fragment items 12/13) of ANY frame the
+   loop read - next to a non-final fragment, next to the final one, in a plain frame -
+   is a key of the reply handed to the pairing state machine *)
+Theorem ble_frames_keep_siblings : forall frames d rest f k,
+    bf_logical frames = BfReply d rest -> In f (bf_used frames) -> is_frag k = false ->
+    has_key k (smerge f) = true -> slookup k d <> None.
+Proof. exact bf_keeps_siblings_l. Qed.
+
+(* a pairing over framed replies that returns a record is a pairing of the plain model
+   on the reassembled replies, hence authentic in the sense of ps_sound *)
+Theorem ble_frames_sound : forall c f2 f4 f6 r,
+    ps_run_frames c f2 f4 f6 = SDone r ->
+    exists d2 d4 d6, bf_reply f2 = Some d2 /\ bf_reply f4 = Some d4 /\ bf_reply f6 = Some d6 /\
+                     ps_authentic TBLE c d2 d4 d6 r.
+Proof. exact ps_frames_sound_l. Qed.
+
+Theorem ble_frames_run_eq : forall c f2 f4 f6 d2 r2 d4 r4 d6 r6,
+    bf_logical f2 = BfReply d2 r2 -> bf_logical f4 = BfReply d4 r4 -> bf_logical f6 = BfReply d6 r6 ->
+    ps_run_frames c f2 f4 f6 = ps_run TBLE c d2 d4 d6.
+Proof. exact ps_run_frames_eq_l. Qed.
+
+(* an Error item in ANY frame of M2, M4 or M6 that was read makes pairing fail *)
+Theorem ble_frames_error_fails : forall c f2 f4 f6 r f,
+    In f (bf_used f2 ++ bf_used f4 ++ bf_used f6) -> has_key S_error (smerge f) = true ->
+    ps_run_frames c f2 f4 f6 <> SDone r.
+Proof. exact ps_frames_error_fails_l. Qed.
+
+(* the unfragmented reply is the one-frame case: same lookups as the plain BLE model *)
+Theorem ble_frames_single_plain : forall f,
+    has_key F_data f = false -> has_key F_last f = false ->
+    bf_logical [f] = BfReply (dict_norm (smerge f)) [] /\
+    forall k, slookup k (dict_norm (smerge f)) = slookup k (smerge f).
+Proof. exact bf_single_plain_l. Qed.
+
+(* where the accessory cuts the payload does not matter: two framings with the same
+   siblings and the same continue/complete decision per frame and the same
+   concatenated payload give the same reply (this is what lets the correspondence
+   cut the bytes anywhere while the symbolic frames are cut at item boundaries) *)
+Theorem ble_frames_cut_irrelevant : forall fs fs',
+    Forall2 bf_same_shape fs fs' -> bf_payload fs = bf_payload fs' ->
+    bf_class (bf_logical fs) = bf_class (bf_logical fs') /\ bf_reply fs = bf_reply fs'.
+Proof. exact bf_cut_irrelevant_l. Qed.
+
+(* non-vacuity: the honest exchange of c03_nonvacuous with every reply in two frames
+   pairs; an Error item next to the FIRST (non-final) fragment of M4 or of M6 fails *)
+Definition ex_split (sib : list sitem) (m : list sitem) : list bframe :=
+  [sib ++ [(F_data, senc (firstn 1 m))]; [(F_last, senc (skipn 1 m))]].
+Definition ex_framed_run (sib4 sib6 : list sitem) : ps_step :=
+  let m2 := sacc_m2 ex_a (ps1_m1 true) in
+  match ps1_on_m2 TBLE m2 with
+  | S1Done salt B =>
+      match ps2_start ex_c salt B with
+      | Some (m3, sb) =>
+          let '(m4, _, Ka) := sacc_m4 ex_a m3 in
+          match ps2_on_m4 TBLE ex_c sb B m4 with
+          | SSend m5 K =>
+              let '(m6, _, _) := sacc_m6 ex_a Ka m5 in
+              ps_run_frames ex_c (ex_split [] m2) (ex_split sib4 m4) (ex_split sib6 m6)
+          | x => x
+          end
+      | None => SUnsup
+      end
+  | S1Fail f => SFail f
+  end.
+Example c03_frames_nonvacuous :
+  match ex_framed_run [] [] with SDone r => bytes_eqb (r_acc_id r) (sa_id ex_a) | _ => false end = true /\
+  match ex_framed_run [(S_error, [AByte 2])] [] with SFail (FErr _) => true | _ => false end = true /\
+  match ex_framed_run [] [(S_error, [AByte 2])] with SFail (FErr _) => true | _ => false end = true.
+Proof. vm_compute. repeat split. Qed.
+
+Print Assumptions ble_frames_keep_siblings.
+Print Assumptions ble_frames_sound.
+Print Assumptions ble_frames_run_eq.
+Print Assumptions ble_frames_error_fails.
+Print Assumptions ble_frames_single_plain.
+Print Assumptions ble_frames_cut_irrelevant.
